@@ -9,7 +9,17 @@ XSS = {"JAVA_TOOL_OPTIONS": "-Xss64m"}
 
 def _run_replay(ctx, args):
     """fstree_replay as uid nobody when we are root, so that permission bits are real"""
-    binary = os.path.join(vlib.BIN, "fstree_replay")
+    # the unprivileged user must be able to execute the binary and read its input wherever /verif lives
+    import shutil
+    binary = os.path.join(vlib.SCRATCH, "fstree_replay")
+    shutil.copy(os.path.join(vlib.BIN, "fstree_replay"), binary)
+    os.chmod(binary, 0o755)
+    args = list(args)
+    if os.path.exists(args[0]):
+        inp = os.path.join(vlib.SCRATCH, "fstree-input")
+        shutil.copy(args[0], inp)
+        os.chmod(inp, 0o644)
+        args[0] = inp
     cmd = [binary, *args]
     unpriv = False
     if os.geteuid() == 0:
